@@ -17,7 +17,7 @@ RULE = ("cases from rng(seed, 12, 0, i): graphs of all pose types (trajectory an
         "(all vertices fixed / exactly consistent measurements / linear graph at its optimum); tol in {0, 1e-12..1e-1}, max_iter 1..30 (quick: ..12), verbose in {True, False}; "
         "one call vs single-iteration driving; random (all for n<=5) compositions k1+..+km=n. distinct = fingerprint(spec, tol, max_iter); non-trivial = run with >= 2 iterations.")
 REQ = ["eval:stopping-rule", "eval:report-chi2-sequence", "eval:final-state-is-trajectory-state", "eval:final-chi2-is-calc_chi2", "eval:verbose-does-not-alter", "eval:split-run-reproduces",
-       "eval:printed-table-matches-report", "eval:str(result)-matches-report", "class:early_stop", "class:max_iter_stop", "class:stationary", "class:diverging", "class:tol=0", "class:converged_at_max_iter", "class:singular", "class:nan_chi2_in_trace"]
+       "eval:printed-table-matches-report", "eval:str(result)-matches-report", "class:early_stop", "class:max_iter_stop", "class:stationary", "class:diverging", "class:tol=0", "class:converged_at_max_iter", "class:singular", "class:nan_chi2_in_trace", "class:edge_overriding_calc_chi2", "eval:next-call-after-external-edit-equals-fresh-graph"]
 PLAN = {
     "quick": {"cases": 1200, "soft_s": 80, "min_nontrivial": 300, "require": REQ},
     "thorough": {"cases": 48000, "soft_s": 1400, "min_nontrivial": 10000, "require": REQ},
@@ -65,6 +65,13 @@ def make_graph(rng, ctx):
         spec = gen.trajectory_graph(rng, k, int(rng.integers(3, 10)), n_loops=int(rng.integers(0, 3)), n_lm=int(rng.integers(0, 3)), meas_t=0.05, meas_r=0.02, init_t=0.2, init_r=0.1)
     elif kind == "cluster":
         spec, _ = gen.cluster_graph(rng, size=(2, 5))
+        if rng.random() < 0.5:
+            # an edge type that overrides calc_chi2 (robust cost): the report must use the edge's own chi2 everywhere
+            v0 = spec["vertices"][int(rng.integers(len(spec["vertices"])))]
+            nt = {"r2": 2, "r3": 3, "se2": 2, "se3": 3}[v0["kind"]]
+            spec["edges"].append({"type": "custom:robustprior", "ids": [v0["id"]], "info": (np.eye(nt) * 4.0).tolist(), "est": [x + 1.5 for x in v0["pose"][:nt]], "est_kind": "array",
+                                  "numeric": bool(rng.random() < 0.5)})
+            ctx.count("class:edge_overriding_calc_chi2")
     elif kind == "stationary_fixed":
         spec, _ = gen.cluster_graph(rng, size=(2, 4))
         for v in spec["vertices"]:
@@ -212,6 +219,30 @@ def report_check(ctx, rng, spec, gkind, tol, max_iter, ffp):
             except ValueError:
                 ok_print = False
     ctx.check("printed-table-matches-report", ok_print, feats, {"rows": rows[:6], "trace": chi[: stop + 1]}, case)
+    # history: after the finished run a vertex is moved from outside; the next call on the same graph object must behave like the same call on a
+    # fresh graph built in that state (report and state), i.e. nothing remembered from the previous call may be reused
+    if rng.random() < 0.5:
+        movable = [v for v in g2._vertices if not v.fixed and all(math.isfinite(x) for x in M.fl(v.pose))]
+        if movable and all(math.isfinite(x) for p in M.snapshot_poses(g2) for x in p):
+            v = movable[int(rng.integers(len(movable)))]
+            kk = M.kind(v.pose)
+            v.pose = M.mkpose(kk, gen.perturb(rng, kk, M.fl(v.pose), 0.3, 0.1))
+            now = gen.copy_spec(spec)
+            now.pop("share", None)
+            for sv, lv in zip(now["vertices"], g2._vertices):
+                sv["pose"] = M.fl(lv.pose)
+                sv["fixed"] = bool(lv.fixed)
+            fresh = M.build(now)
+            kw2 = {"tol": tol, "max_iter": min(max_iter, 6), "fix_first_pose": ffp}
+            try:
+                ra = M.quiet_optimize(g2, **kw2)
+                rb = M.quiet_optimize(fresh, **kw2)
+                same = (ra.num_iterations == rb.num_iterations and bool(ra.converged) == bool(rb.converged) and same_float(ra.initial_chi2, rb.initial_chi2) and
+                        same_float(ra.final_chi2, rb.final_chi2) and same_state(M.snapshot_poses(g2), M.snapshot_poses(fresh)))
+                ctx.check("next-call-after-external-edit-equals-fresh-graph", same, feats, {"continued": [ra.num_iterations, ra.converged, ra.initial_chi2, ra.final_chi2],
+                                                                                          "fresh": [rb.num_iterations, rb.converged, rb.initial_chi2, rb.final_chi2]}, case)
+            except Exception as ex:
+                ctx.count("external_edit_history_raised:" + type(ex).__name__)
     # split runs (tol=0 so that no call stops early) reproduce x_n
     n = max_iter
     for parts in compositions(rng, n, ctx.tier):
